@@ -228,7 +228,9 @@ def make_output(mk, shape):
         pts = []
         for i in range(npts):
             xs = name.split("_")[0] in XS_KINDS
-            r = EXSResult(mk(f"{name}[{i}].x"), mk(f"{name}[{i}].Q2"), mk(f"{name}[{i}].y"), nf) if xs else ESFResult(
+            # nf == 0 marks a cross-section observable all of whose points sit at y = 0.0 (a number, as in yadism's own benchmark cards)
+            yv_ = 0.0 if (xs and nf == 0) else mk(f"{name}[{i}].y")
+            r = EXSResult(mk(f"{name}[{i}].x"), mk(f"{name}[{i}].Q2"), yv_, None if nf == 0 else nf) if xs else ESFResult(
                 mk(f"{name}[{i}].x"), mk(f"{name}[{i}].Q2"), nf)
             for o in ORDER_KEYS[:nord]:
                 v = np.empty((2, 2), dtype=object)
@@ -414,6 +416,9 @@ def shapes(tier):
     out.append([("F2", 1, 2, 4), ("F2_total", 2, 1, None)])
     out.append([("XSHERANC_total", 2, 2, 4), ("XSHERANC", 1, 1, None)])
     out.append([("F2_charm", 1, 1, 4), ("F2_light", 2, 2, 4), ("F2", 1, 3, None)])
+    # cross sections whose points all have y = 0.0 (falsy kinematics are still kinematics)
+    out.append([("XSHERANC_total", 2, 2, 0), ("F2_total", 1, 1, 4)])
+    out.append([("XSCHORUSCC_light", 1, 1, 0)])
     out.append([])
     return out
 
